@@ -60,9 +60,13 @@ def has_body(n):
     return any(isinstance(c, dict) and c.get("kind") == "CompoundStmt" for c in n.get("inner", ()))
 
 
+HELPERS = {}
+
+
 def collect(d):
     """in-scope candidate bodies: (decl, class name or None, params)"""
     out = []
+    HELPERS.clear()
     classes = {c: {} for c in OPT_CLASSES}
     seen = set()
     for n in d.walk():
@@ -79,6 +83,13 @@ def collect(d):
             continue
         seen.add(key)
         cls = class_of(d, n) if n.get("kind") == "CXXMethodDecl" else None
+        par = d.parent_of(n)
+        if par is not None and par.get("kind") == "FunctionTemplateDecl":
+            par = d.parent_of(par)
+        if cls is None and par is not None and par.get("kind") == "NamespaceDecl" and par.get("name") == "detail" and not (n.get("name") or "").startswith("operator"):
+            # an implementation helper (not an overload users call): followed from the bodies that use it, never judged as an operation of its own
+            HELPERS.setdefault(n.get("name"), []).append(n)
+            continue
         if cls in OPT_CLASSES:
             classes[cls].setdefault(n.get("name"), []).append(n)
         params = [c for c in n.get("inner", ()) if isinstance(c, dict) and c.get("kind") == "ParmVarDecl"]
@@ -152,6 +163,7 @@ def check_function(rep, d, ev_classes, n, cls, params, optp, cat):
             if variant is not None:
                 scen = "condition %s; %s" % (variant[0], scen)
             ev = Evaluator(d, ev_classes)
+            ev.helpers = HELPERS
             env = {}
             objs = {}
             for kind, nm, p in ops_:
@@ -172,6 +184,7 @@ def check_function(rep, d, ev_classes, n, cls, params, optp, cat):
                 if ev.identity_tests and len(opt_names) == 2 and assign[0] == assign[1] and assign[0]:
                     # the body branches on `this == &rhs`: evaluate the aliased call too (both operands are one present object)
                     ev2 = Evaluator(d, ev_classes)
+                    ev2.helpers = HELPERS
                     ev2.alias = True
                     shared = Obj(opt_names[0], True)
                     env2 = {}
